@@ -1,6 +1,7 @@
 ---------------------------- MODULE P2Hex_Trace ----------------------------
 (* Judgement of observed P2HEX runs.  The harness writes one JSON object per case into IOEnv.CASES:             *)
-(*   [id, recs (data records of the code file in file order), fentry, o (option vector), rc, lines (tokens)]   *)
+(*   [id, recs (data records of the code files in command-line / file order), files (per source argument: n =  *)
+(*    number of its records, sfx/ofs/nota = its "(offset)" suffix, fentry), o (option vector), rc, lines]      *)
 (* and this module evaluates, per case, the public-definition predicates of P2Hex.tla (Verdict), the failure   *)
 (* expectation, the attribution of a failed verdict to named deviations of the pinned code (Explains) and the  *)
 (* comparison with the operational model (diagnostic).  One TLC step per case; the verdict is printed as JSON. *)
@@ -9,7 +10,7 @@ EXTENDS P2Hex, Json, IOUtils
 VARIABLES l, res
 Cases == ndJsonDeserialize(IOEnv.CASES)
 
-CaseOf(cs) == [recs |-> cs.recs, fentry |-> cs.fentry, o |-> cs.o]
+CaseOf(cs) == [recs |-> cs.recs, files |-> cs.files, o |-> cs.o]
 
 Judge(cs) ==
   LET c == CaseOf(cs)
